@@ -447,8 +447,19 @@ def check_shapes(ctx):
     # data frame labels
     f = ctx.fn('simulator:SSAResult.py_get_dataframe')
     txt = [util.stmt_key(n) for n in ast.walk(f) if isinstance(n, ast.stmt)]
-    ok = 'columns = Model.get_species_list()' in txt and "df['time'] = self.timepoints" in txt and \
-        any(t.replace(' ', '') == 'df=pandas.DataFrame(data=self.get_result(),columns=columns)' for t in txt)
+    # with a model: the frame is built from the result rows with the model's species list as column labels (keyword or positional,
+    # through temporaries or not)
+    defs_ = {n_: v_ for n_, v_ in util.single_defs(f).items() if v_ is not None}
+    frames = [c_ for c_ in ast.walk(f) if isinstance(c_, ast.Call) and src(c_.func).split('.')[-1] == 'DataFrame']
+    labelled = []
+    for c_ in frames:
+        kw = {k_.arg: src(util.inline(k_.value, defs_)).replace(' ', '') for k_ in c_.keywords if k_.arg}
+        if c_.args:
+            kw.setdefault('data', src(util.inline(c_.args[0], defs_)).replace(' ', ''))
+        if 'columns' in kw:
+            labelled.append(kw)
+    ok = len(labelled) == 1 and labelled[0].get('data') == 'self.get_result()' and labelled[0].get('columns') == 'Model.get_species_list()' \
+        and "df['time'] = self.timepoints" in txt
     ctx.ob('R7.4-labels', 'SSAResult.py_get_dataframe', ok, ctx.loc('simulator', f),
            "data frame: data = result rows, columns = the model's species list, 'time' = the result's time axis", '')
     f = ctx.fn('simulator:VolumeSSAResult.py_get_dataframe')
@@ -495,7 +506,10 @@ def check(ctx):
     c08.check_pure_evaluation(sub)
     from . import c06
     c06.check_state_readers(sub)
+    c09.check_deterministic(sub)        # deterministic mode: every row, the first included, gets the rules exactly once
     for rule, key, ok, where, what, detail in sub.got:
+        if rule == 'R9.5-deterministic':
+            ctx.ob('R7.4-first-row', '%s/%s' % (rule, key), ok, where, what, detail)
         if rule in ('R5.2-record-before-update', 'R5.2-record-condition', 'R9.3-rules-first', 'R8.4-work-on-copies'):
             ctx.ob('R7.4-first-row', '%s/%s' % (rule, key), ok, where, what, detail)
         if rule == 'R6.1-state-readers':
